@@ -15,6 +15,7 @@ use serde::{ser::SerializeSeq, Deserialize, Deserializer, Serialize, Serializer}
 use ssz::{Decode, Encode, SszEncoder, TryFromIter, BYTES_PER_LENGTH_OFFSET};
 use std::collections::{BTreeMap, HashMap};
 use std::marker::PhantomData;
+use std::ops::ControlFlow;
 use tree_hash::{Hash256, PackedEncoding, TreeHash};
 use typenum::Unsigned;
 use vec_map::VecMap;
@@ -178,6 +179,30 @@ impl<T: Value, N: Unsigned, U: UpdateMap<T>> List<T, N, U> {
     }
 
     pub fn bulk_update(&mut self, updates: U) -> Result<(), Error> {
+        if self.has_pending_updates() {
+            return Err(Error::BulkUpdateUnclean);
+        }
+        if let Some(max_index) = updates.max_index() {
+            if max_index >= N::to_usize() {
+                return Err(Error::InvalidListUpdate);
+            }
+            // Updates at or beyond the current length must extend the list contiguously,
+            // otherwise it would be left with holes.
+            let mut next_index = self.len();
+            if max_index >= next_index {
+                updates.for_each_range(next_index, max_index + 1, |index, _| {
+                    if index == next_index {
+                        next_index += 1;
+                        ControlFlow::Continue(Ok(()))
+                    } else {
+                        ControlFlow::Continue(Err(Error::OutOfBoundsUpdate {
+                            index,
+                            len: next_index,
+                        }))
+                    }
+                })?;
+            }
+        }
         self.interface.bulk_update(updates)
     }
 
